@@ -27,7 +27,7 @@ THRESHOLDS = {"quick": {
     "c03:datasets": 300, "c03:items": 2500, "c03:parallel-runs": 20, "c03:distinct-schedules?c03:schedule-probe-attached": 10, "c03:opt:allowed_start": 100,
     "c03:opt:allowed_end": 100, "c03:opt:deadend_start:nontrivial": 100, "c03:opt:deadend_end:nontrivial": 100,
     "c03:opt:endpoints_not_equal": 100, "c03:opt:deadend+allowed-same-endpoint:nontrivial": 30, "c03:opt:none": 500, "c03:equal-endpoints-allowed-and-seen": 5, "c03:empty-dataset": 5,
-    "c03:from_config": 30, "c03:shared-cache-requests": 12, "c03:start-method-datasets": 4, "c03:huge-grid-datasets": 2, "c03:many-mazes": 20, "c03:large-grid": 15, "c03:worker-pids?c03:schedule-probe-attached": 30,
+    "c03:from_config": 30, "c03:shared-cache-requests": 12, "c03:shared-cache-requests:config-object-reused": 6, "c03:start-method-datasets": 4, "c03:huge-grid-datasets": 2, "c03:many-mazes": 20, "c03:large-grid": 15, "c03:worker-pids?c03:schedule-probe-attached": 30,
     "hits:_generate_maze_helper?c03:schedule-probe-attached": 1000,
 }}
 THRESHOLDS["thorough"] = {**THRESHOLDS["quick"], "c03:datasets": 4000, "c03:parallel-runs": 300, "c03:distinct-schedules?c03:schedule-probe-attached": 100}
@@ -344,19 +344,32 @@ def _shared_cache(ctx, MazeDataset, MazeDatasetConfig, GENERATORS_MAP):
     import tempfile
 
     groups = [(2, "gen_dfs", [3, 4, 3]), (3, "gen_dfs", [120, 121]), (2, "gen_dfs", [1000, 1001, 1000]), (2, "gen_dfs_percolation", [1049, 1000]),
-              (3, "gen_wilson", [7, 8]), (2, "gen_dfs", [2040, 2010])]
+              (3, "gen_wilson", [7, 8]), (2, "gen_dfs", [2040, 2010]),
+              # the usual sweep: ONE configuration object, its maze count assigned in place before each request (after the object
+              # has already been used - file name, summary, earlier requests)
+              (3, "gen_dfs", [6, 9, 6, 12]), (2, "gen_dfs_percolation", [5, 8, 5]), (4, "gen_dfs", [3, 120, 3]), (3, "gen_wilson", [4, 2])]
     for gi, (g_n, gen, counts) in enumerate(groups):
         if not ctx.mine(gi):
             continue
         base = tempfile.mkdtemp(prefix="c03-cache-", dir=ctx.work)
+        reuse = gi >= 6
+        shared_cfg = None
         try:
             for step, n in enumerate(counts):
-                case = dict(kind="shared-cache", grid_n=g_n, gen=gen, counts=counts, step=step, n_mazes=n)
+                case = dict(kind="shared-cache", grid_n=g_n, gen=gen, counts=counts, step=step, n_mazes=n, one_config_object_reused=reuse)
                 try:
                     with warnings.catch_warnings():
                         warnings.simplefilter("ignore")
-                        cfg = MazeDatasetConfig(name="c03-shared", grid_n=g_n, n_mazes=n, maze_ctor=GENERATORS_MAP[gen],
-                                                maze_ctor_kwargs=(dict(p=0.2) if gen == "gen_dfs_percolation" else {}), seed=5)
+                        if reuse and shared_cfg is not None:
+                            cfg = shared_cfg
+                            cfg.n_mazes = n
+                            ctx.tally("c03:shared-cache-requests:config-object-reused")
+                        else:
+                            cfg = MazeDatasetConfig(name="c03-shared", grid_n=g_n, n_mazes=n, maze_ctor=GENERATORS_MAP[gen],
+                                                    maze_ctor_kwargs=(dict(p=0.2) if gen == "gen_dfs_percolation" else {}), seed=5)
+                            if reuse:
+                                shared_cfg = cfg
+                                cfg.to_fname(); cfg.summary()
                         ds = MazeDataset.from_config(cfg, local_base_path=base, do_download=False)
                 except Exception as ex:  # noqa: BLE001
                     import traceback
